@@ -111,6 +111,12 @@ void HttpServer::serve(Socket client)
 						Array<String> parts = range.substr(6).split('-');
 						int begin = parts[0];
 						int end = parts.length() > 1 ? (int)parts[1] : 0;
+						if (parts.length() > 1 && parts[0] == "") // suffix range "-n": the last n bytes of the file
+						{
+							Long size = file.size();
+							begin = int(max(Long(0), size - (int)parts[1]));
+							end = int(size - 1);
+						}
 						response.setCode(206);
 						response.setHeader("Content-Range", "+");
 						response.putFile(file.path(), begin, end);
